@@ -37,6 +37,14 @@ class DevPairSuite:
             out[dev] = progbase.run_program(c)
             if out[dev].get("drop"):
                 return {"drop": out[dev]["drop"]}
+        if case["dev"] == "evo" and len(case["ops"]) >= 2:
+            # the same labware objects used first by a worklist of one device type, then by one of the other type
+            m = len(case["ops"]) // 2
+            for name, d1, d2 in (("evo_then_fluent", "evo", "fluent"), ("fluent_then_evo", "fluent", "evo")):
+                c = dict(case, dev=d1, switch_at=m, switch_dev=d2)
+                r = progbase.run_program(c)
+                if not r.get("drop"):
+                    out[name] = {"m": m, "steps": [{"exc": s["exc"], "recs": s["recs"], "vols": [l["vols"] for l in s["lw"]]} for s in r["steps"]]}
         return {"runs": out, "steps": out[case["dev"]]["steps"]}
 
     def emit(self, case, obs):
@@ -113,6 +121,22 @@ class DevPairSuite:
                     bad.append(f"base: {k} on a BaseWorklist raised {sb['exc']} where device-specific numbering is needed")
             if bad:
                 break
+        # a worklist's records depend on its own device type only, not on which worklist used the labware before
+        for name, second in (("evo_then_fluent", f), ("fluent_then_evo", e)):
+            sw = obs["runs"].get(name)
+            if bad or not sw:
+                continue
+            m = sw["m"]
+            for i in range(m, len(case["ops"])):
+                op, ss, sp = case["ops"][i], sw["steps"][i], second["steps"][i]
+                if op["op"] not in ("aspirate", "dispense", "transfer", "distribute"):
+                    continue
+                before_equal = [l["vols"] for l in second["steps"][i - 1]["lw"]] == sw["steps"][i - 1]["vols"] if i > 0 else True
+                if not before_equal:
+                    break
+                if ss["exc"] != sp["exc"] or ss["recs"] != sp["recs"] or ss["vols"] != [l["vols"] for l in sp["lw"]]:
+                    bad.append(f"switch: call {i} ({op['op']}) run by a {name.split('_')[-1]} worklist after a worklist of the other type had used the same labware gives {ss['recs'][:2]} ({ss['exc']}) instead of {sp['recs'][:2]} ({sp['exc']})")
+                    break
         if not bad and e.get("final") and f.get("final"):
             if e["final"]["hist"] != f["final"]["hist"]:
                 bad.append("history: final histories differ between the devices")
